@@ -1402,6 +1402,11 @@ func (v *VMValue) SetSlice(ctx *Context, a, b, step IntType, val *VMValue) bool 
 	}
 
 	offset := len(arr2.List) - int(_b-_a)
+	if offset > 0 && len(arr.List)+offset > 512 {
+		// 与区间/重复/拼接相同的上限: a[0:0]=a 每次使数组翻倍，不受限制时几十次赋值就会耗尽内存
+		ctx.Error = errors.New("不能一次性创建过长的数组")
+		return false
+	}
 	newArr := make([]*VMValue, len(arr.List)+offset)
 
 	for i := IntType(0); i < _a; i++ {
